@@ -68,6 +68,41 @@ BIP341(tx, idx, prevouts, ht, extflag, annex, ext) ==
                \o ext
     IN TaggedHash("TapSighash", pre)
 
+\* ---- which algorithm an input takes: the dispatch a signer makes from the output being spent -------------
+IsP2TR(s)   == Len(s) = 34 /\ s[1] = 81 /\ s[2] = 32
+IsP2SH(s)   == Len(s) = 23 /\ s[1] = 169 /\ s[2] = 20 /\ s[23] = 135
+IsP2WPKH(s) == Len(s) = 22 /\ s[1] = 0 /\ s[2] = 20
+IsP2WSH(s)  == Len(s) = 34 /\ s[1] = 0 /\ s[2] = 32
+RECURSIVE LastPushFrom(_, _, _)
+LastPushFrom(s, pc, last) == IF pc > Len(s) THEN last
+                             ELSE LET op == GetOp(s, pc) IN IF ~op.ok THEN << >> ELSE LastPushFrom(s, op.next, op.data)
+LastPush(s) == LastPushFrom(s, 1, << >>)        \* BIP16: the redeem script is the last push of the scriptSig
+
 TapLeafHash(version, script) == TaggedHash("TapLeaf", <<version>> \o VarBytes(script))
 TapExt(leafhash, codesep) == leafhash \o <<0>> \o codesep        \* codesep: 4 bytes LE, ffffffff when none executed
+
+\* annex and BIP342 extension read off a taproot witness (BIP341 "last element whose first byte is 0x50")
+TapWitnessParts(w) ==
+    LET hasAnnex == Len(w) >= 2 /\ w[Len(w)] # << >> /\ w[Len(w)][1] = 80
+        st == IF hasAnnex THEN SubSeq(w, 1, Len(w) - 1) ELSE w
+        annex == IF hasAnnex THEN w[Len(w)] ELSE << >>
+        scriptPath == Len(st) > 1
+        ctrl == st[Len(st)]
+        lv == IF scriptPath THEN (ctrl[1] \div 2) * 2 ELSE 0
+    IN [annex |-> annex,
+        ext |-> IF scriptPath THEN TapExt(TapLeafHash(lv, st[Len(st) - 1]), <<255, 255, 255, 255>>) ELSE << >>]
+
+\* ht is the 32-bit word (BigNat); codesep = how many OP_CODESEPARATOR occurrences the script code starts after
+FromTx(tx, idx, prevouts, ht, codesep) ==
+    LET spk == prevouts[idx].spk IN
+    IF IsP2TR(spk) THEN
+        LET parts == TapWitnessParts(tx.vin[idx].witness)
+            h == BToInt(ht)
+        IN IF TapRefused(tx, idx, h) THEN <<"refused">>
+           ELSE BIP341(tx, idx, prevouts, h, IF parts.ext = << >> THEN 0 ELSE 1, parts.annex, parts.ext)
+    ELSE LET sc == IF IsP2SH(spk) THEN LastPush(tx.vin[idx].script) ELSE spk IN
+         IF IsP2WPKH(sc) THEN BIP143(tx, idx, <<118, 169, 20>> \o SubSeq(sc, 3, 22) \o <<136, 172>>, prevouts[idx].value, ht)
+         ELSE IF IsP2WSH(sc) THEN
+              LET w == tx.vin[idx].witness IN BIP143(tx, idx, AfterCodeSepFrom(w[Len(w)], 1, codesep), prevouts[idx].value, ht)
+         ELSE Legacy(tx, idx, AfterCodeSepFrom(sc, 1, codesep), ht)
 =============================================================================
